@@ -174,7 +174,7 @@ def run(eng, tier):
         fee = M('CreateBid', 'fee')
         if p.variant_of(fee) == 'Some':
             eng.ob(p.holds(EQ(F(SOMEV(fee), 'denom'), M('CreateBid', 'quote')), True) is not None, PROP, 'I5-established', 'CreateBid',
-                   'a bid is admitted without requiring fee.denom == quote denom; later fee transfers choose the mechanism from the quote denomination\'s marker type', detail=p.describe(12))
+                   'a bid is admitted without requiring fee.denom == quote denom; later fee transfers choose the mechanism from the quote denomination\'s marker type', where=p, detail=p.describe(12))
     # spec floor: every fund-moving request kind has at least one message on some successful path
     movers = ['CreateAsk', 'CreateBid', 'ApproveAsk', 'CancelAsk', 'CancelBid', 'ExpireAsk', 'ExpireBid', 'RejectAsk', 'RejectBid', 'ExecuteMatch']
     for v in movers:
